@@ -1,0 +1,234 @@
+//go:build verif
+
+package file
+
+// Accessors for the C06 runtime monitor (file reader: each complete line once,
+// with its end-of-line offset). Never used by production code.
+//
+// VerifC06Env owns one real `worker` and one real `jobProvider` (no watcher,
+// no maintenance goroutine). Jobs are created by the provider's own `addJob`
+// (so `offsets_op` continue/tail/reset and the loaded offsets are applied by
+// the real code), read rounds are executed by the real `worker.work`, and jobs
+// are re-queued by the provider's own `maintenanceJob` / `refreshFile`.
+
+import (
+	"fmt"
+	"os"
+	"runtime/debug"
+
+	"github.com/ozontech/file.d/metric"
+	"github.com/ozontech/file.d/pipeline"
+	"github.com/ozontech/file.d/pipeline/metadata"
+	"github.com/prometheus/client_golang/prometheus"
+	"go.uber.org/zap"
+)
+
+// VerifC06Ctl receives what the worker hands to its controller.
+// `data` is the worker's own buffer: copy it if it must be kept.
+type VerifC06Ctl interface {
+	In(sourceID pipeline.SourceID, sourceName string, offsets pipeline.Offsets, data []byte, isNewSource bool)
+	ReadOp()
+	SizeExceeded(source string)
+}
+
+type verifC06Inputer struct {
+	ctl VerifC06Ctl
+	seq uint64
+}
+
+func (i *verifC06Inputer) In(sourceID pipeline.SourceID, sourceName string, offsets pipeline.Offsets, data []byte, isNewSource bool, _ metadata.MetaData) uint64 {
+	i.seq++
+	i.ctl.In(sourceID, sourceName, offsets, data, isNewSource)
+	return i.seq
+}
+func (i *verifC06Inputer) IncReadOps() { i.ctl.ReadOp() }
+func (i *verifC06Inputer) IncMaxEventSizeExceeded(lvs ...string) {
+	s := ""
+	if len(lvs) > 0 {
+		s = lvs[0]
+	}
+	i.ctl.SizeExceeded(s)
+}
+
+type VerifC06Env struct {
+	w   *worker
+	jp  *jobProvider
+	in  *verifC06Inputer
+	log *zap.SugaredLogger
+}
+
+type VerifC06Job struct {
+	env *VerifC06Env
+	j   *Job
+}
+
+// VerifC06NewEnv builds a worker with the given limit settings and a job
+// provider that is not started (so `offsets_op` is honoured by addJob).
+func VerifC06NewEnv(maxEventSize int, cutOff bool, ctl VerifC06Ctl) *VerifC06Env {
+	log := zap.NewNop().Sugar()
+	mctl := metric.NewCtl("verif_c06", prometheus.NewRegistry(), 0, 0)
+	metrics := newMetricCollection(
+		mctl.RegisterCounter("c06_a", "x"),
+		mctl.RegisterCounter("c06_b", "x"),
+		mctl.RegisterGauge("c06_c", "x"),
+		mctl.RegisterGauge("c06_d", "x"),
+	)
+	// Paths.Include is set so that NewJobProvider does not derive a pattern
+	// from the working directory; the watcher is never started.
+	conf := &Config{MaxFiles: 1 << 20, Paths: Paths{Include: []string{"/nonexistent-verif-c06/*"}}}
+	jp := NewJobProvider(conf, metrics, log)
+	jp.jobsChan = make(chan *Job, 256)
+	return &VerifC06Env{
+		w:   &worker{maxEventSize: maxEventSize, cutOffEventByLimit: cutOff},
+		jp:  jp,
+		in:  &verifC06Inputer{ctl: ctl},
+		log: log,
+	}
+}
+
+// Open opens path and registers it through the provider's addJob with the
+// given offsets_op ("continue", "tail", "reset"); for "continue", saved (may be
+// nil = no entry in the offsets file) is what the offsets file held for this
+// file. The job is left queued for the next Run, as addJob does.
+func (e *VerifC06Env) Open(path, op string, saved map[string]int64) (*VerifC06Job, error) {
+	switch op {
+	case "continue":
+		e.jp.config.OffsetsOp_ = offsetsOpContinue
+	case "tail":
+		e.jp.config.OffsetsOp_ = offsetsOpTail
+	case "reset":
+		e.jp.config.OffsetsOp_ = offsetsOpReset
+	default:
+		return nil, fmt.Errorf("unknown op %q", op)
+	}
+	file, err := os.Open(path)
+	if err != nil {
+		return nil, err
+	}
+	stat, err := file.Stat()
+	if err != nil {
+		_ = file.Close()
+		return nil, err
+	}
+	sourceID := sourceIDByStat(stat, "")
+	e.jp.loadedOffsets = fpOffsets{}
+	if op == "continue" && saved != nil {
+		streams := make(map[pipeline.StreamName]int64, len(saved))
+		for k, v := range saved {
+			streams[pipeline.StreamName(k)] = v
+		}
+		e.jp.loadedOffsets[sourceID] = &inodeOffsets{filename: path, sourceID: sourceID, streams: streams}
+	}
+	e.jp.addJob(file, stat, path, "")
+	e.jp.jobsMu.RLock()
+	job := e.jp.jobs[sourceID]
+	e.jp.jobsMu.RUnlock()
+	if job == nil {
+		return nil, fmt.Errorf("addJob did not register %s", path)
+	}
+	return &VerifC06Job{env: e, j: job}, nil
+}
+
+// Run executes the real worker.work over everything that is queued, in queue
+// order, and returns when the queue is drained (a nil job ends the worker, as
+// Plugin.Stop does). A panic of the real code is returned ("panic: msg" and
+// the stack), not propagated; "" otherwise.
+func (e *VerifC06Env) Run(readBufferSize int) (panicked string) {
+	defer func() {
+		if r := recover(); r != nil {
+			panicked = fmt.Sprintf("panic: %v\n\n%s", r, debug.Stack())
+		}
+	}()
+	e.jp.jobsChan <- nil
+	e.w.work(e.in, e.jp, readBufferSize, e.log)
+	return ""
+}
+
+// Queued is the number of jobs waiting for a worker.
+func (e *VerifC06Env) Queued() int { return len(e.jp.jobsChan) }
+
+// SourceID of the job as passed to In.
+func (j *VerifC06Job) SourceID() pipeline.SourceID { return j.j.sourceID }
+
+// ResumeMaintenance runs the provider's periodic maintenance step for this
+// job: it re-queues the job when the file size differs from the read position,
+// otherwise it releases and reopens the descriptor. Returns the result code
+// (1 not done, 2 resumed, 3 deleted, 4 no-op, 0 error).
+func (j *VerifC06Job) ResumeMaintenance() int { return j.env.jp.maintenanceJob(j.j) }
+
+// ResumeNotify does what the provider does on a file system notification
+// (create, or write when isWrite) for this file; it re-queues a done job
+// whether or not the file has grown.
+func (j *VerifC06Job) ResumeNotify(isWrite bool) error {
+	j.j.mu.Lock()
+	name := j.j.filename
+	j.j.mu.Unlock()
+	stat, err := os.Stat(name)
+	if err != nil {
+		return err
+	}
+	j.env.jp.refreshFile(stat, name, "", isWrite)
+	return nil
+}
+
+type VerifC06JobState struct {
+	Filename   string
+	SourceID   pipeline.SourceID
+	CurOffset  int64
+	TailLen    int
+	Done       bool
+	ShouldSkip bool
+}
+
+func verifC06State(job *Job) VerifC06JobState {
+	job.mu.Lock()
+	defer job.mu.Unlock()
+	return VerifC06JobState{
+		Filename:   job.filename,
+		SourceID:   job.sourceID,
+		CurOffset:  job.curOffset,
+		TailLen:    len(job.tail),
+		Done:       job.isDone,
+		ShouldSkip: job.shouldSkip.Load(),
+	}
+}
+
+func (j *VerifC06Job) State() VerifC06JobState { return verifC06State(j.j) }
+
+// Close removes the job from the provider (as maintenance does for a deleted
+// file) and closes the descriptor. After a panic of the real code the
+// environment must be dropped instead.
+func (j *VerifC06Job) Close() {
+	j.j.mu.Lock()
+	if j.j.isDone {
+		j.env.jp.deleteJobAndUnlock(j.j)
+	} else {
+		j.j.mu.Unlock()
+	}
+	_ = j.j.file.Close()
+}
+
+// VerifC06SourceID is the source id the provider derives for a file.
+func VerifC06SourceID(path string) (pipeline.SourceID, uint64, error) {
+	stat, err := os.Stat(path)
+	if err != nil {
+		return 0, 0, err
+	}
+	return sourceIDByStat(stat, ""), uint64(getInode(stat)), nil
+}
+
+// VerifC06PluginState is a snapshot of a started plugin: every job and the
+// number of jobs waiting for a worker.
+func VerifC06PluginState(p *Plugin) (jobs []VerifC06JobState, queued int) {
+	jp := p.jobProvider
+	jp.jobsMu.RLock()
+	list := make([]*Job, 0, len(jp.jobs))
+	for _, job := range jp.jobs {
+		list = append(list, job)
+	}
+	jp.jobsMu.RUnlock()
+	for _, job := range list {
+		jobs = append(jobs, verifC06State(job))
+	}
+	return jobs, len(jp.jobsChan)
+}
